@@ -265,6 +265,95 @@ def c09(tier):
     return jobs, meta
 
 
+# ---- C10 / C11 ---------------------------------------------------------------------------
+HASH_CBMC = LIBC + PERM_UF + SPEC + CLEAN
+HASH_NATIVE = SPEC + CLEAN + D.perm_real(256)
+HASH_STUBS = ["memcpy/memset/explicit_bzero: byte loops",
+              "tinyjambu_permutation_256: uninterpreted function (Cut 1)",
+              "oracle: models/tj_spec.c spec_hash, written from tools/hashref/README.md, validated on every setup run "
+              "against test/kat/TinyJAMBU-HASH.txt with the bit-serial NLFSR"]
+
+
+def hash_job(name, defines, facet, tier, oneshot=False, n=0):
+    return Job(name, "c10_hash.c", defines, HASH_CBMC + HASH_REAL, HASH_NATIVE + HASH_REAL, backend="kissat",
+               unwind=max(n + 12, 60), timeout=600 if tier == "quick" else 3000, facet=facet)
+
+
+@prop("C10")
+def c10(tier):
+    jobs = []
+    ns = list(range(0, 71)) if tier == "quick" else list(range(0, 71)) + [127, 128, 129, 255, 256, 257, 511, 512, 513, 1024]
+    for n in ns:
+        jobs.append(hash_job("hash-n%d" % n, {"N": n, "C1": 0, "C2": 0}, "conformance-single-update", tier, n=n))
+    splits = [(5, 1, 2), (16, 16, 0), (17, 1, 16), (33, 7, 9), (48, 16, 16), (70, 15, 17), (40, 0, 33), (31, 30, 1)]
+    if tier != "quick":
+        splits += [(130, 1, 127), (200, 5, 20), (257, 128, 1)]
+    for (n, c1, c2) in splits:
+        jobs.append(hash_job("hash-n%d-split%d-%d" % (n, c1, c2), {"N": n, "C1": c1, "C2": c2}, "conformance-3-updates", tier, n=n))
+    for n in (0, 1, 15, 16, 17, 33):
+        jobs.append(hash_job("hash-oneshot-n%d" % n, {"N": n, "C1": 0, "C2": 0, "ONESHOT": None}, "one-shot tinyjambu_hash", tier, n=n))
+    meta = {
+        "functions": ["tinyjambu_hash_init", "tinyjambu_hash_update", "tinyjambu_hash_finalize", "tinyjambu_hash_compress (static)",
+                      "tinyjambu_hash (one-shot, n <= 33)", "tinyjambu_hash_free", "tinyjambu_clean"],
+        "units": ["src/tinyjambu-hash.c", "src/backend/tinyjambu-clean.c"],
+        "bounds": "message length 0..70 (thorough + 127..129, 255..257, 511..513, 1024), every byte symbolic; 3-way splits; "
+                  "one-shot function for n in {0,1,15,16,17,33}; back end: CBMC propositional encoding + kissat",
+        "outside": "longer messages in a single query (C11's inductive step extends the result to any length and chunking); "
+                   "alignment and optimisation level (CBMC has no alignment; clang IR facet listed where implemented); gcc",
+        "stubs": HASH_STUBS, "assumptions": AEAD_ASSUME, "relies_on": ["C05 (permutation-256 at 20 rounds)"],
+    }
+    return jobs, meta
+
+
+@prop("C11")
+def c11(tier):
+    jobs = []
+    step_src = (HASH_CBMC, HASH_NATIVE)
+    lens = list(range(0, 41)) if tier == "quick" else list(range(0, 101))
+    for posn in range(16):
+        for ln in lens:
+            if tier == "quick" and not (ln <= 18 or ln in (31, 32, 33, 40) or posn in (0, 1, 15)):
+                continue
+            jobs.append(Job("step-posn%d-len%d" % (posn, ln), "c11_step.c", {"VARIANT": 1, "POSN": posn, "LEN": ln},
+                            step_src[0], step_src[1], backend="kissat", unwind=ln + 40, timeout=600,
+                            facet="step-lemma update"))
+        jobs.append(Job("finalize-posn%d" % posn, "c11_step.c", {"VARIANT": 2, "POSN": posn}, step_src[0], step_src[1],
+                        backend="kissat", unwind=40, timeout=600, facet="finalize-lemma"))
+        jobs.append(Job("null-update-posn%d" % posn, "c11_step.c", {"VARIANT": 6, "POSN": posn}, step_src[0], step_src[1],
+                        backend="kissat", unwind=60, timeout=600, facet="update(NULL,0) identity, free(NULL) no-op"))
+    jobs.append(Job("init-arbitrary", "c11_step.c", {"VARIANT": 3}, step_src[0], step_src[1], backend="kissat",
+                    unwind=40, facet="init-lemma"))
+    jobs.append(Job("reinit-arbitrary", "c11_step.c", {"VARIANT": 3, "REINIT": None}, step_src[0], step_src[1],
+                    backend="kissat", unwind=40, facet="init-lemma"))
+    for op in range(5):
+        for posn in (0, 9):
+            jobs.append(Job("isolate-op%d-posn%d" % (op, posn), "c11_step.c", {"VARIANT": 4, "OP": op, "POSN": posn, "LEN": 21},
+                            step_src[0], step_src[1], backend="kissat", unwind=80, facet="isolation of state objects"))
+    for ln in (list(range(0, 71, 1)) if tier != "quick" else list(range(0, 71, 3)) + [16, 17, 31, 32, 64, 65]):
+        jobs.append(Job("fold-model-len%d" % ln, "c11_step.c", {"VARIANT": 5, "LEN": ln}, step_src[0], step_src[1],
+                        backend="kissat", unwind=ln + 40, facet="model-vs-model fold == block form"))
+    # one-shot == streamed, end to end, small sizes (the one-shot function is also compared with the model in C10)
+    for (n, c1, c2) in [(0, 0, 0), (1, 1, 0), (17, 16, 1), (33, 5, 11), (20, 0, 20)]:
+        jobs.append(hash_job("stream-n%d-split%d-%d" % (n, c1, c2), {"N": n, "C1": c1, "C2": c2}, "end-to-end streamed == model", tier, n=n))
+    for n in (0, 1, 17, 33):
+        jobs.append(hash_job("oneshot-n%d" % n, {"N": n, "C1": 0, "C2": 0, "ONESHOT": None}, "end-to-end one-shot == model", tier, n=n))
+    meta = {
+        "functions": ["tinyjambu_hash_update (one step from an arbitrary valid state)", "tinyjambu_hash_finalize", "tinyjambu_hash_init",
+                      "tinyjambu_hash_reinit", "tinyjambu_hash_free", "tinyjambu_hash", "tinyjambu_hash_compress (static)"],
+        "units": ["src/tinyjambu-hash.c (#included by the harness to reach the private state layout)", "src/backend/tinyjambu-clean.c"],
+        "bounds": "inductive step: every pre-state (L, R, 16 block bytes symbolic; posn in 0..15) x one update of length "
+                  "0..40 (quick: a cross-section; thorough: 0..100 in full); finalize from every state; init/reinit on an arbitrary "
+                  "object; by induction every sequence of updates of those lengths followed by finalize equals the model on the "
+                  "concatenation (all 2^(n-1) compositions, unbounded histories). The state object is exactly the 52-byte private "
+                  "struct so any dependence on the 4 padding bytes is a bounds failure.",
+        "outside": "a single update call longer than the step bound; the meta-step (induction over the sequence) is stated, not "
+                   "machine-checked; concurrent interleavings are C19",
+        "stubs": HASH_STUBS, "assumptions": AEAD_ASSUME + ["little-endian host (the harness builds states with typed word stores)"],
+        "relies_on": ["C05"],
+    }
+    return jobs, meta
+
+
 # ---- replay ----------------------------------------------------------------------------
 def replay(pid, path):
     hdr = {}
